@@ -11,11 +11,13 @@ CLAIM = dict(
          'index, conversion, transpose, arithmetic and the product loop (n = 1 and n = 2 branches included) agree with the dense twin; (ii) emits every such matrix as a case '
          'executed on the real Tridiagonal<Rat/f64/Complex>; (iii) validates recorded executions for n = 1..12: histories over every constructor and operation, exact solve-or-refuse '
          'on general integer data, a zero pivot arising at every chosen elimination step, and diagonally dominant systems. The trace specification decides refusal from the minors: '
-         'when the model refuses the call must have panicked with a message mentioning "zero"; otherwise it must have returned x with T x = r exactly (recomputed by TLC).',
+         'when the model refuses the call must have panicked with a message mentioning "zero"; otherwise it must have returned x with T x = r exactly (recomputed by TLC). '
+         'Sequences on ONE object (n = 1..12, all three types): det, solve, product, conversion and all reads through the index operator before and after EVERY mutating operation (index writes, transpose_in_place, resize, += c, -= c, *= s, /= s) '
+         'and every re-binding of the object to an operator result (neg, +, -, * s, / s); the trace specification keeps the model\'s current value and demands that every event starts from it.',
     note='Exact: all Rat cases; f64/Complex on integer histories and on data constructed so that every operation of the Thomas algorithm is exact in binary floating point (pivots +-1, +-2, '
          'integer multipliers), where the float result is converted to exact rationals and checked like Rat. Floats on the TLC-enumerated small matrices: only the outcome (answer vs refusal) '
          'is demanded. Measured: diagonally dominant f64/Complex systems - backward error units of eps(|T||x|+|r|) <= 96 (x8 complex; a-priori 12u for diagonally dominant Thomas elimination, factor 8), '
-         'determinant error <= 32 n units of eps F_n (recurrence on absolute values). Off-diagonal-band element access may panic or return 0. The refusal message is only required to mention "zero".',
+         'determinant error <= 32 n units of eps F_n (recurrence on absolute values). In float sequences the solve bound is demanded wherever the model state is strictly diagonally dominant by rows or columns (decided by TLC on the integer parts). resize: only the new size is demanded. Off-diagonal-band element access may panic or return 0. The refusal message is only required to mention "zero".',
     design='4 (C05)')
 
 NT = lambda e: True
